@@ -400,3 +400,43 @@ pub fn replay(ctx: &mut Ctx, ext: &str, bytes: &[u8]) -> Result<Option<String>, 
 pub fn gen_line_pub(t: &mut Tape, hostile: bool, clock: &mut f64) -> String {
     gen_line(t, hostile, false, clock)
 }
+
+/// Text-level entry of the `grammar` fuzz target: three selector bytes ([General] prefix) and arbitrary text
+/// as the body of [TimingPoints]. Ok(None) = held or outside the line-level domain, Ok(Some(key)) = known finding.
+fn fuzz_case(sel: [u8; 3], text: &str) -> Option<Case> {
+    use crate::refmodel::framing::frame;
+    use rosu_map::section::Section;
+    let case = Case {
+        mode: sel[0] % 4,
+        def_bank_line: BANK_LINES[sel[1] as usize % BANK_LINES.len()].0,
+        def_vol_line: VOL_LINES[sel[2] as usize % VOL_LINES.len()].0,
+        lines: text.split('\n').map(|l| l.to_string()).collect(),
+    };
+    let fr = frame(&case.text());
+    let expect: Vec<&str> = case.lines.iter().map(|l| l.trim_end()).filter(|tl| !tl.is_empty() && !tl.trim_start().starts_with("//")).collect();
+    let prefix = 1 + usize::from(!case.def_bank_line.is_empty()) + usize::from(!case.def_vol_line.is_empty());
+    let same = fr.version == 14
+        && fr.trace.len() == prefix + expect.len()
+        && fr.trace[..prefix].iter().all(|(s, _)| *s == Section::General)
+        && fr.trace[prefix..].iter().zip(&expect).all(|((s, l), e)| *s == Section::TimingPoints && l == e);
+    same.then_some(case)
+}
+
+/// is the input inside the line-level domain (statistics only)
+pub fn fuzz_domain(sel: [u8; 3], text: &str) -> Option<bool> {
+    Some(fuzz_case(sel, text).is_some())
+}
+
+pub fn fuzz_text(sel: [u8; 3], text: &str, open_k6: bool) -> Result<Option<&'static str>, Fail> {
+    let Some(case) = fuzz_case(sel, text) else { return Ok(None) };
+    let file = case.text();
+    match evaluate(&case) {
+        Ok(_) => Ok(None),
+        Err(msg) => {
+            if open_k6 && classify_k6(&case) {
+                return Ok(Some(K6));
+            }
+            Err(Fail::new(msg, "osu", file.into_bytes()))
+        }
+    }
+}
